@@ -28,6 +28,20 @@ TABLE = {
  "C17-b": ("C17", "to_chunksize's regularity check inlined without the 'last chunk larger than the first' clause: needs chunk arithmetic yielding a layout like (2,3) / (1,1,3) (reshape merging an odd leading axis with >= 2 trailing chunks, reshape splitting (6,)/(3,) to (3,2), blocks[[3,0]]) -> accepted instead of refused; a stored chunk is never written (silent zeros) or a task fails with IndexError"),
  "C14-b": ("C14", "_rechunk_plan skips the final copy when the intermediate chunks equal the target chunks: needs allow_irregular=True (default), memory too tight to consolidate writes and a source chunk that is not a multiple of the target chunk -> the result keeps a rectilinear grid (70,30,40,60,..) instead of the requested chunks; caught by the repository's own hypothesis test, which the pinned deterministic run excludes"),
  "C04-b": ("C04", "can_fuse_multiple_primitive_ops de-duplicates repeated predecessor ops before computing the peak for the fusion veto while fuse_multiple still composes the projection from the full list: needs one intermediate feeding two arguments of the next op (multiply(b, b)) and allowed_mem in a narrow window -> the default optimizer turns a fitting plan into a refused one"),
+ "C01-b": ("C01", "permute_dims passes the index tuples to blockwise the other way round (output labelled range(ndim), input labelled axes) while the block function still applies `axes`: needs >= 3 dims and a permutation that is not its own inverse ((1,2,0), moveaxis(x,0,-1) on 3-d, vecdot(axis=0) on 3-d) -> wrong values / wrong shape, mostly silently (Zarr truncates oversized edge blocks)"),
+ "C02-b": ("C02", "make_fused_back_key_function memoizes each predecessor key function for the duration of one task (functools.cache): needs a fused consumer that asks the SAME predecessor chunk twice (repeated argument) where that predecessor's key function returns an iterator (reduction, concat) -> both arguments share one drained iterator: AxisError for reductions, silently wrong values for concat"),
+ "C11-b": ("C11", "region store skips the source rechunk when the source chunks are a whole multiple of the target's ('already line up'): needs a region store whose source chunk is a larger multiple of the target chunk (incl. single-block sources and sharded targets) -> tasks enumerated over target blocks read non-existent / wrong source blocks: silent corruption (truncated oversized blocks) or IndexError mid-run"),
+}
+# seeds that were re-evaluated after strengthening: confirm.log holds the LATER run; what the first evaluation gave is recorded here
+FIRST = {
+ "C07-b": {"C07": {"exit": 0, "violation_lines": 0}},
+ "C14-b": {"C14": {"exit": 0, "violation_lines": 0}},
+ "C01-b": {"C01": {"exit": 0, "violation_lines": 0}},
+ "C02-b": {"C02": {"exit": 0, "violation_lines": 0}},
+ "C17-b": {"C17": {"exit": 0, "violation_lines": 0}, "C12": {"exit": 0, "violation_lines": 0}},
+ "C12-a": {"C12": "not run before strengthening (no scenario could reach the change: miss by inspection)"},
+ "C19-a": {"C19": "not run before strengthening (miss by inspection)"},
+ "C06-a": {"C06": "not run before strengthening (miss by inspection)"},
 }
 for sid, (prop, needs) in TABLE.items():
     d = os.path.join(ROOT, sid)
@@ -48,7 +62,8 @@ for sid, (prop, needs) in TABLE.items():
                       "demo_with_change_exit_nonzero": bool(re.search(r"demo with change: exit [1-9]", log)),
                       "how": "tools/seed_eval.sh: fresh scratch worktree of /repo HEAD, demo run without and with patch.diff applied; then quick checks run against the changed code ("
                              + ("a scratch worktree put first on PYTHONPATH, because /repo was in use by long runs" if "scratch worktree" in log else "patch applied to /repo, /repo restored with git checkout -- .") + ")"},
-        "checks_run_at_first_evaluation": checks,
+        "checks_run_at_first_evaluation": FIRST.get(sid, checks),
+        "checks_in_confirm_log": checks,
         "checks_run_after_strengthening": extra,
         "files": sorted(os.listdir(d)),
     }
